@@ -83,3 +83,12 @@ package fusemanager
 //@   ensures[C17] locked(fm.status) != FuseManagerReady ==> err != nil
 //@   ensures[C17] err == nil && old(req.Mountpoint in served) ==> !(req.Mountpoint in served) && !(req.Mountpoint in stored)
 //@   ensures[C17] forall k string :: k != req.Mountpoint ==> ((k in served <==> k in old(served)) && (k in stored <==> k in old(stored)))
+
+// restoreFuseInfo: every record is decoded into a value of its own -- encoding/json keeps the entries of a map it is
+// handed, so a decoding target shared between records would leak labels from one mountpoint to the next.
+// (the callback runs inside Init, under fm.lock and after the status was set: assumed here, bolt calls it)
+//@ func (fm *Server) restoreFuseInfo$1$1
+//@   props C17
+//@   requires held(fm.lock)
+//@   requires fm.status == FuseManagerReady
+//@   assert[C17] before "err := json.Unmarshal(v, mi)" : fresh(mi)
